@@ -12,6 +12,9 @@ CHECKS = {
  'C01': ('tx', 'stateless model checking of the implementation: exhaustive thread-interleaving exploration with iterative preemption bounding (line-granular) under a controlled scheduler and virtual clock',
          'Worlds of 2..3 (thorough 4) threads, each running its own virtual event loop through one of five life-cycles (asyncio.run; main returns early -> stock shutdown cancelling leftovers, in both task orders; per-caller wait_for; hand-driven loop abandoned with the computation pending, with and without finalisation of the abandoned coroutines; loop stopped from another thread), 1..2 (thorough 3) callers per loop, function scripts (return without suspending / suspend / sleep / raise), default dict and MutableMapping caches; EVERY schedule with at most PB preemptions (PB 1-2 quick, 2-3 thorough; choice points at every source line of aiuti code, every lock/executor/queue/loop-select operation and loop stop/close) is executed on the real code under a cooperative scheduler with a virtual clock; a monitor replays the total order of harness events. ' + 'Oracle: never two open invocations of a key on running loops; nothing invoked after the first success; normal returns carry that result.',
          'one aiuti source line / one stdlib call is atomic; preemption bound as reported; loops not restarted; lru.LRU cache not used in the threaded worlds.', '3/C01'),
+ 'C02': ('tx', 'stateless model checking of the implementation: exhaustive thread-interleaving exploration with iterative preemption bounding against the real kernel flock; process-level exploration in C13',
+         '704 (thorough ~2.7k) worlds of 2..3 (thorough 4) threads x 2 FileLock objects on one path x 1..2 rounds over all acquire forms (acquire(), non-blocking, timed, acquire_ctx variants, with; finite default timeouts), section lengths {0, D}, reentrant nesting; every schedule with <= 1-2 preemptions (line-granular in aiuti/filelock.py + every lock/flock/open/close/sleep operation; real kernel flock, scheduler-owned in-process locks, virtual clock); oracle: whoever reported success is the only one until it calls release, sections never overlap, failures never enter, nothing left held. Cross-process exclusion is explored by the C13 harness (real processes, no kill).',
+         'one source line atomic; in-process locks are shims with threading.Lock/RLock semantics; free-running 16-process contention is sampling and not claimed.', '3/C02'),
  'C03': ('vt', 'bounded-exhaustive enumeration of timed submission programs x failure scripts on the real buffer under a virtual-time event loop (engine A); thread-interleaving exploration for foreign submitters (engine B)',
          'Every program of up to 4 (thorough 5) submissions/waits over {plain, await_, map(list), map(iterator), amap} with producer delays and failure positions, gaps straddling the timeout, x failure scripts of the wrapped function x durations; oracle on the invocation log: nothing lost, nothing invented, loop-thread arguments in exactly one successful call.',
          'virtual clock; <= 2 complex producers per program; engine A runs helper threads to completion at submit.', '3/C03'),
@@ -39,6 +42,9 @@ CHECKS = {
  'C12': ('sq', 'explicit-state BFS to a fixpoint over operation sequences on the real FileLock against a reference model, with exhaustive single/double OSError injection per transition',
          'BFS to a fixpoint (about 4.4k canonical states, 157k transitions) over 2 FileLock objects x 2 virtual threads on one path for 6 configurations, 52-operation alphabet (all acquire forms, acquire_ctx/with enter+exit, release, forced release, nesting <= 3); after every step return value, is_locked, nesting counter, in-process lock state, descriptor accounting (+/proc/self/fd) and the real kernel flock state are compared with a reference model; every env-call-making transition from context-free states is re-run with OSError injected at each env-call index (and pairs), followed by all non-blocking probes.',
          'virtual threads in one real thread (in-process lock ownership is virtual); ops that would block forever and cross-thread release are outside the alphabet; longer random sequences (sampling) are not claimed.', '3/C12'),
+ 'C13': ('px', 'process-level model checking of the implementation: forked real processes stepped by a controller over pipes, SIGKILL as a scheduler action at every point of the victim, bounded interleavings of the survivors',
+         'Victim scenarios {blocking, timed vs busy lock, reentrant nested, with, acquire_ctx, lock object pre-used by the parent before fork} x SIGKILL at EVERY report index of the victim (each executed source line of aiuti/filelock.py and each flock/sleep operation, 60-180 points per scenario) x contender sets {none, blocking, timed, two blocking} started before/after the victim x schedules with <= 0-1 preemptions; plus kill-free 2..3 process worlds. Real kernel flock across real processes. Oracle: sections of live processes never overlap, no live process parked with nobody able to move, blocking survivors acquire, a fresh process acquires non-blockingly afterwards.',
+         'Linux flock on a local filesystem; children single-threaded; virtual time for timeouts/polls; kill granularity = source line / shim operation.', '3/C13'),
  'C14': ('vt', 'bounded-exhaustive enumeration of call signatures and cache-operation sequences on the real decorator under a virtual-time event loop',
          'Every call signature (<= 2, thorough 3 positionals over a 9-value domain incl. equal-across-type and (name,value) tuples; keyword dicts over <= 3 names in every insertion order) called on one wrapped function forward / reverse / shuffled / concurrently (covers all ordered pairs) for default, dict and logging-mapping caches; every sequence of <= 4 (thorough 5) ops over {call, evict, clear} x 4 colliding signatures, and every call sequence on lru.LRU(1..3): invoked iff absent from the caller mapping, values tagged with the arguments that produced them.',
          'single loop (cross-thread behaviour is C01); reference key relation is Python ==/hash.', '3/C14'),
